@@ -23,6 +23,8 @@
   * Hypotheses (all named, all explicit):
       `PydBridge acc pyd c` — only where actual types are written (`c.useActual`, i.e. pydantic / sqlmodel);
       `RefsDistinct e g`   — distinct registered models have distinct reference texts (distinct class names);
+                             `refsDistinct_of_flat_rendering`: holds for the names a successful flat rendering leaves
+                             behind (`_prepare_class_names`), when the conversion leaves the prepared names alone;
       `Typed c e g`        — every registered model's class table exists (`genClass` does not raise in
                              `metadata_to_typing`); `typed_of_WF`: follows from `Reg.WF`, names present, `typable` fields.
 -/
@@ -253,6 +255,54 @@ theorem C01_pipeline_sound_flat {cfg : GenCfg} {o : GenOracles} {cmps : List Cmp
   have wf2 : WF g2 := generateNames_WF h2 (C01R.registry_sound hwf hnames hrep hrank h0 h1).1
   exact (C01_pipeline_sound hwf hnames hrep hrank h0 h1 h2 hb hd (typed_of_flat_rendering wf2 hl hg)).2
 
+/-- `ConvFix c o N0 is`: `convert_class_name` leaves the names prepared by `_prepare_class_names` alone (the generator
+    constructors convert every name once more); `C03N.ConvFix` -/
+def ConvFix (c : RenderCfg) (o : RenderOracles) (N0 : NameMap) (is : List String) : Prop :=
+  ∀ i ∈ is, ∀ n, nameOf N0 i = some n → convertClassName c o n = .ok n
+
+/-- **refsDistinct_of_flat_rendering**: since `generate_code` makes the converted class names unique
+    (`_prepare_class_names`), `RefsDistinct` holds for the names a successful flat rendering leaves behind — provided
+    the conversion leaves the prepared names `N0` alone (`C03N.generateCode_class_names_distinct`). -/
+theorem refsDistinct_of_flat_rendering {c : RenderCfg} {o : RenderOracles} {g : Graph} {l : List String}
+    {pre : Option String} {text : String} {F N0 : NameMap} (nd : (idxs g).Nodup) (hl : composeFlat g = .ok l)
+    (h : generateCode c o g (l.map (fun i => Node.mk i [])) [] pre = .ok (text, F))
+    (hN0 : prepareNames c o (g.models.map (fun m => (m.idx, m.name))) (l.map (fun i => Node.mk i [])) = .ok N0)
+    (hfix : ConvFix c o N0 l) : RefsDistinct ⟨F, []⟩ g := by
+  have hs : Rend2.StableOn c o N0 (Rend2.postL (l.map (fun i => Node.mk i []))) := by
+    rw [Rend2.postL_flat]; exact hfix
+  have hnd := Rend2.generateCode_names_nodup h hN0 hs
+  rw [Rend2.postL_flat] at hnd
+  have hd := (PrepNames.nodup_map_distinct.mp hnd).2
+  have hmem : ∀ m ∈ g.models, m.idx ∈ l := fun m hm =>
+    (LayoutP.composeFlat_perm hl).mem_iff.mpr (List.mem_map_of_mem hm)
+  refine refsDistinct_flat nd (fun m hm m' hm' r h1 h2 => ?_)
+  apply Classical.byContradiction
+  intro hne
+  exact hd m.idx (hmem m hm) m'.idx (hmem m' hm') hne (h1.trans h2.symm)
+
+/-- **C01_pipeline_sound_flat_prepared**: `C01_pipeline_sound_flat` with the hypothesis "distinct final class names"
+    replaced by what the code under test needs to establish it: the conversion leaves the prepared names alone. -/
+theorem C01_pipeline_sound_flat_prepared {cfg : GenCfg} {o : GenOracles} {cmps : List Cmp}
+    {inputs : List (String × List Json)} {g0 g1 g2 : Graph} {repl : List (String × List String)} {no : NameOracles}
+    {pyd : String → String → Json → Prop} {c : RenderCfg} {ro : RenderOracles} {l : List String}
+    {pre : Option String} {text : String} {F N0 : NameMap}
+    (hwf : ∀ inp ∈ inputs, ∀ s ∈ inp.2, Json.WF s)
+    (hnames : ∀ k ∈ cfg.reg.types, wfSerName k = true)
+    (hrep : ReplacesSound o.accepts cfg.reg) (hrank : ReplacesRanked cfg.reg)
+    (h0 : buildGraph cfg o inputs = .ok g0) (h1 : mergeModels cfg o.str cmps g0 = .ok (g1, repl))
+    (h2 : generateNames no g1 = .ok g2) (hl : composeFlat g2 = .ok l)
+    (hg : generateCode c ro g2 (l.map (fun i => Node.mk i [])) [] pre = .ok (text, F))
+    (hb : c.useActual = true → PydBridge o.accepts pyd c)
+    (hN0 : prepareNames c ro (g2.models.map (fun m => (m.idx, m.name))) (l.map (fun i => Node.mk i [])) = .ok N0)
+    (hfix : ConvFix c ro N0 l) :
+    RefsDistinct ⟨F, []⟩ g2 ∧
+    ∀ inp ∈ inputs, ∃ root, ∀ s ∈ inp.2,
+      ∃ m ∈ g2.models, m.idx = root ∧ ∃ tab kvs, tableOf c ⟨F, []⟩ m.fields = some tab ∧ s = .obj kvs ∧
+        TabAccepts o.accepts pyd (clsOf c ⟨F, []⟩ g2) tab kvs := by
+  have wf2 : WF g2 := generateNames_WF h2 (C01R.registry_sound hwf hnames hrep hrank h0 h1).1
+  have hd := refsDistinct_of_flat_rendering wf2.nodup hl hg hN0 hfix
+  exact ⟨hd, C01_pipeline_sound_flat hwf hnames hrep hrank h0 h1 h2 hl hg hb hd⟩
+
 /-! ## non-vacuity -/
 
 def cfgP : RenderCfg where
@@ -431,13 +481,15 @@ theorem typing_widens_no_distinct_false : ¬ typing_widens_no_distinct_Statement
   · simp at hx; subst hx; simp at hxe
   · simp at hd
 
-/-! ### … and it does fail for the code under test: class names that coincide only after `convert_class_name`
+/-! ### … and the code under test now establishes it: class names that coincide only after `convert_class_name`
 
   Input `[{"p": {"a.b": {"x": 1}}, "q": {"ab": {"y": "s"}}}]` (pydantic, flat).  `generate_names` calls the two inner
-  models `A.b` and `Ab`; `fix_name_duplicates` sees two different names; `convert_class_name` (run later, by the code
-  generator) strips the dot: the module defines `class Ab` twice, `P.ab: 'Ab'` and `Q.ab: 'Ab'` denote the same class, and
-  `Root.parse_obj(sample)` raises (`p -> a.b -> y field required`).  Confirmed on the Python code; the model renders
-  the same text.  No field-name collision is involved (each class has one field). -/
+  models `A.b` and `Ab`; `fix_name_duplicates` sees two different names; `convert_class_name` strips the dot.  Before
+  `_prepare_class_names` existed (conversion only in the generator constructor) the module defined `class Ab` twice,
+  `P.ab: 'Ab'` and `Q.ab: 'Ab'` denoted the same class, `RefsDistinct` failed for the final names and
+  `Root.parse_obj(sample)` raised.  `generate_code` now converts all names first and appends the model index to every
+  converted name that is shared: the classes are `Ab_1C` and `Ab_1E`, `RefsDistinct` holds, and the objects of both
+  models are accepted.  (General statement: `C03N.generateCode_class_names_distinct`.) -/
 
 /-- label oracles with the real `\W` removal on the characters involved -/
 def oClash : RenderOracles where
@@ -456,36 +508,48 @@ def gClash : Graph where
   ptrs := [⟨"1A", none, none⟩, ⟨"1B", some "1A", some "p"⟩, ⟨"1C", some "1B", some "a.b"⟩,
            ⟨"1D", some "1A", some "q"⟩, ⟨"1E", some "1D", some "ab"⟩]
   counter := 5
-def FClash : NameMap := [("1A", some "Root"), ("1B", some "P"), ("1C", some "Ab"), ("1D", some "Q"), ("1E", some "Ab")]
+def FClash : NameMap :=
+  [("1A", some "Root"), ("1B", some "P"), ("1C", some "Ab_1C"), ("1D", some "Q"), ("1E", some "Ab_1E")]
 
 /-- `fix_name_duplicates` has nothing to do: the names are pairwise distinct before the conversion -/
 example : (gClash.models.map (·.name)).Nodup ∧ (fixNameDuplicates gClash.models).map (·.name) = gClash.models.map (·.name) := by
   decide
 
+/-- … and the conversion alone maps both `A.b` and `Ab` to `Ab` -/
+example : (convertClassName (Rend2.exCfg .pydantic) oClash "A.b").toOption = some "Ab" ∧
+    (convertClassName (Rend2.exCfg .pydantic) oClash "Ab").toOption = some "Ab" := by decide +kernel
+
 theorem exClash_text : generateCode (Rend2.exCfg .pydantic) oClash gClash
     (["1A", "1B", "1C", "1D", "1E"].map (fun i => Node.mk i [])) [] none = .ok
-      ("from pydantic.v1 import BaseModel, Field\nfrom typing import Literal\n\n\nclass Root(BaseModel):\n    p: 'P'\n    q: 'Q'\n\n\nclass P(BaseModel):\n    ab: 'Ab' = Field(..., alias=\"a.b\")\n\n\nclass Ab(BaseModel):\n    x: int\n\n\nclass Q(BaseModel):\n    ab: 'Ab'\n\n\nclass Ab(BaseModel):\n    y: Literal[\"s\"]\n",
+      ("from pydantic.v1 import BaseModel, Field\nfrom typing import Literal\n\n\nclass Root(BaseModel):\n    p: 'P'\n    q: 'Q'\n\n\nclass P(BaseModel):\n    ab: 'Ab_1C' = Field(..., alias=\"a.b\")\n\n\nclass Ab_1C(BaseModel):\n    x: int\n\n\nclass Q(BaseModel):\n    ab: 'Ab_1E'\n\n\nclass Ab_1E(BaseModel):\n    y: Literal[\"s\"]\n",
        FClash) := Rend2.generateCode_of_eval (by decide +kernel)
 
-/-- the final names violate `RefsDistinct` … -/
-theorem exClash_not_distinct : ¬ RefsDistinct ⟨FClash, []⟩ gClash := by
-  intro h
-  have := h { idx := "1C", fields := [("x", .int)], name := some "A.b", nameGen := some true } (by simp [gClash])
-    { idx := "1E", fields := [("y", .lit false ["s"])], name := some "Ab", nameGen := some true } (by simp [gClash])
-    "Ab" (by decide) (by decide)
-  have := congrArg Model.idx this
-  simp at this
+/-- the clash is resolved: the two classes are emitted under different names … -/
+theorem exClash_resolved : Rend2.lookup FClash "1C" = some "Ab_1C" ∧ Rend2.lookup FClash "1E" = some "Ab_1E" ∧
+    Rend2.lookup FClash "1C" ≠ Rend2.lookup FClash "1E" := by decide
 
-/-- … and the conclusion of `typing_widens` fails: the object `{"y": "s"}` lies in model `1E`, the field `Q.ab` of that
-    type is annotated `'Ab'`, and the class that `'Ab'` denotes in `clsOf` (the first one, `x: int`) rejects it.
-    (Python binds `Ab` to the LAST definition; then it is `P.ab` whose object `{"x": 1}` is rejected.) -/
-theorem exClash_rejected :
+/-- … the final names satisfy `RefsDistinct` … -/
+theorem exClash_distinct : RefsDistinct ⟨FClash, []⟩ gClash := by
+  refine refsDistinct_flat (by decide) ?_
+  intro m hm m' hm' r h1 h2
+  simp only [gClash, List.mem_cons, List.mem_nil_iff, or_false] at hm hm'
+  rcases hm with rfl | rfl | rfl | rfl | rfl <;> rcases hm' with rfl | rfl | rfl | rfl | rfl <;>
+    first | rfl | (exfalso; revert h1 h2; decide +revert)
+
+theorem exClash_typed : Typed (Rend2.exCfg .pydantic) ⟨FClash, []⟩ gClash := by
+  intro m hm
+  simp only [gClash, List.mem_cons, List.mem_nil_iff, or_false] at hm
+  rcases hm with rfl | rfl | rfl | rfl | rfl <;> rfl
+
+/-- … and the conclusion of `typing_widens` holds where it failed: the object `{"y": "s"}` lies in model `1E`, the field
+    `Q.ab` of that type is annotated `'Ab_1E'`, and the class that `'Ab_1E'` denotes (`y: Literal["s"]`) accepts it. -/
+theorem exClash_accepted :
     Inh (fun _ _ => none) gClash.look (.ptr "1E") (.obj [("y", .str "s")]) ∧
-    tyAnn (Rend2.exCfg .pydantic) ⟨FClash, []⟩ (.ptr "1E") = some (.fwd "Ab") ∧
-    ¬ AnnInh (fun _ _ => none) (fun _ _ _ => False) (clsOf (Rend2.exCfg .pydantic) ⟨FClash, []⟩ gClash) (.fwd "Ab")
+    tyAnn (Rend2.exCfg .pydantic) ⟨FClash, []⟩ (.ptr "1E") = some (.fwd "Ab_1E") ∧
+    AnnInh (fun _ _ => none) (fun _ _ _ => False) (clsOf (Rend2.exCfg .pydantic) ⟨FClash, []⟩ gClash) (.fwd "Ab_1E")
         (.obj [("y", .str "s")]) := by
-  refine ⟨?_, rfl, fun h => ?_⟩
-  · refine .ptr (fs := [("y", .lit false ["s"])]) rfl (by simp [Fields.get?]) ?_ ?_
+  have hI : Inh (fun _ _ => none) gClash.look (.ptr "1E") (.obj [("y", .str "s")]) := by
+    refine .ptr (fs := [("y", .lit false ["s"])]) rfl (by simp [Fields.get?]) ?_ ?_
     · intro kv hkv t ht
       simp at hkv; subst hkv
       simp [Fields.get?] at ht; subst ht
@@ -493,14 +557,33 @@ theorem exClash_rejected :
     · intro ft hft _
       simp at hft; subst hft
       exact ⟨("y", .str "s"), by simp, rfl⟩
-  · obtain ⟨tab, kvs, hc, hv, hacc, _, _⟩ := annInh_fwd_iff.1 h
-    have hc' : clsOf (Rend2.exCfg .pydantic) ⟨FClash, []⟩ gClash "Ab" = some ⟨[("x", .int, false)], []⟩ := rfl
-    rw [hc'] at hc
-    cases hc
-    cases hv
-    rcases hacc ("y", .str "s") (by simp) with ⟨x, hx, hxe⟩ | ⟨hd, _⟩
-    · simp at hx; subst hx; simp at hxe
-    · simp at hd
+  refine ⟨hI, rfl, typing_widens (fun _ => ?_) exClash_distinct exClash_typed rfl hI⟩
+  intro k p hp
+  simp [Rend2.exCfg] at hp
+
+/-- `refsDistinct_of_flat_rendering` applies: the prepared names `Ab_1C`, `Ab_1E`, … are fixed points of the conversion -/
+theorem exClash_prepared : prepareNames (Rend2.exCfg .pydantic) oClash (gClash.models.map (fun m => (m.idx, m.name)))
+    (["1A", "1B", "1C", "1D", "1E"].map (fun i => Node.mk i [])) = .ok FClash :=
+  Rend2.ok_of_toOption (by decide +kernel)
+
+theorem exClash_convFix : ConvFix (Rend2.exCfg .pydantic) oClash FClash ["1A", "1B", "1C", "1D", "1E"] := by
+  intro i hi n hn
+  simp only [List.mem_cons, List.not_mem_nil, or_false] at hi
+  rcases hi with rfl | rfl | rfl | rfl | rfl
+  · have e : some "Root" = some n := (by decide +kernel : nameOf FClash "1A" = some "Root").symm.trans hn
+    cases e; exact Rend2.ok_of_toOption (by decide +kernel)
+  · have e : some "P" = some n := (by decide +kernel : nameOf FClash "1B" = some "P").symm.trans hn
+    cases e; exact Rend2.ok_of_toOption (by decide +kernel)
+  · have e : some "Ab_1C" = some n := (by decide +kernel : nameOf FClash "1C" = some "Ab_1C").symm.trans hn
+    cases e; exact Rend2.ok_of_toOption (by decide +kernel)
+  · have e : some "Q" = some n := (by decide +kernel : nameOf FClash "1D" = some "Q").symm.trans hn
+    cases e; exact Rend2.ok_of_toOption (by decide +kernel)
+  · have e : some "Ab_1E" = some n := (by decide +kernel : nameOf FClash "1E" = some "Ab_1E").symm.trans hn
+    cases e; exact Rend2.ok_of_toOption (by decide +kernel)
+
+example : RefsDistinct ⟨FClash, []⟩ gClash :=
+  refsDistinct_of_flat_rendering (by decide) (Rend2.ok_of_toOption (by decide +kernel)) exClash_text exClash_prepared
+    exClash_convFix
 
 /-! ### non-vacuity of the pipeline theorems: the two-level input of `Props/C01R.lean`, pydantic, flat layout -/
 
@@ -537,6 +620,23 @@ example := C01_pipeline_sound_flat (pyd := fun _ _ _ => False) (cfg := C01R.cfgX
   (by simp [C01R.cfgX]) (by intro a b h; simp [C01R.cfgX] at h) ⟨fun _ => 0, by simp [C01R.cfgX]⟩
   C01R.exX_build C01R.exX_merge exX_names exX_flat exX_text (fun _ => exX_bridge _) exX_distinct
 
+theorem exX_prepared : prepareNames (Rend2.exCfg .pydantic) Rend2.exOracles (g2X.models.map (fun m => (m.idx, m.name)))
+    (["1A", "1D"].map (fun i => Node.mk i [])) = .ok FX := Rend2.ok_of_toOption (by decide +kernel)
+
+theorem exX_convFix : ConvFix (Rend2.exCfg .pydantic) Rend2.exOracles FX ["1A", "1D"] := by
+  intro i hi n hn
+  simp only [List.mem_cons, List.not_mem_nil, or_false] at hi
+  rcases hi with rfl | rfl
+  · have e : some "Root" = some n := (by decide +kernel : nameOf FX "1A" = some "Root").symm.trans hn
+    cases e; exact Rend2.ok_of_toOption (by decide +kernel)
+  · have e : some "b_c" = some n := (by decide +kernel : nameOf FX "1D" = some "b_c").symm.trans hn
+    cases e; exact Rend2.ok_of_toOption (by decide +kernel)
+
+/-- … and those of `C01_pipeline_sound_flat_prepared`, which derives the distinctness of the class names -/
+example := C01_pipeline_sound_flat_prepared (pyd := fun _ _ _ => False) (cfg := C01R.cfgX) (o := C01R.oX) C01R.exX_wf
+  (by simp [C01R.cfgX]) (by intro a b h; simp [C01R.cfgX] at h) ⟨fun _ => 0, by simp [C01R.cfgX]⟩
+  C01R.exX_build C01R.exX_merge exX_names exX_flat exX_text (fun _ => exX_bridge _) exX_prepared exX_convFix
+
 example : (tableOf (Rend2.exCfg .pydantic) ⟨FX, []⟩ [("a", .int), ("b", .ptr "1D"), ("c", .list (.ptr "1D"))]).map
     (fun t => (t.fields, t.dropped)) =
     some ([("a", .int, false), ("b", .fwd "b_c", false), ("c", .list (.fwd "b_c"), false)], []) := rfl
@@ -564,5 +664,8 @@ end J2M.C01S
 #print axioms J2M.C01S.typed_of_registry
 #print axioms J2M.C01S.typing_widens_no_distinct_false
 #print axioms J2M.C01S.exClash_text
-#print axioms J2M.C01S.exClash_not_distinct
-#print axioms J2M.C01S.exClash_rejected
+#print axioms J2M.C01S.refsDistinct_of_flat_rendering
+#print axioms J2M.C01S.C01_pipeline_sound_flat_prepared
+#print axioms J2M.C01S.exClash_resolved
+#print axioms J2M.C01S.exClash_distinct
+#print axioms J2M.C01S.exClash_accepted
